@@ -81,3 +81,79 @@ def scoresSeparate (cfg : Config) (req : Req) : Prop :=
 
 end Spec
 end Restful
+
+namespace Restful
+namespace Spec
+
+/-- `sameOutcome` as a Bool, for outcomes observed on the real code (parameters as a finite map,
+    Allow as a set) -/
+def sameOutcomeB (a b : Outcome) : Bool :=
+  match a, b with
+  | .selected s r ps, .selected s' r' ps' => s == s' && r == r' && decide (ps.Perm ps')
+  | .error c (some al), .error c' (some al') => c == c' && al.all (al'.contains ·) && al'.all (al.contains ·)
+  | .error c none, .error c' none => c == c'
+  | _, _ => false
+
+end Spec
+end Restful
+
+namespace Restful
+namespace Spec
+
+/-- decidable form of `distinctMethodPath` -/
+def pairwiseB {α : Type} (r : α → α → Bool) : List α → Bool
+  | [] => true
+  | a :: as => as.all (r a) && pairwiseB r as
+
+theorem pairwiseB_iff {α : Type} (r : α → α → Bool) (l : List α) :
+    pairwiseB r l = true ↔ l.Pairwise (fun a b => r a b = true) := by
+  induction l with
+  | nil => simp [pairwiseB]
+  | cons a as ih => simp [pairwiseB, ih, List.all_eq_true]
+
+def distinctMethodPathB (cfg : Config) : Bool :=
+  cfg.services.all (fun svc => pairwiseB (fun a b => !(a.method == b.method) || a.path != b.path) svc.built)
+
+def scoresDiffer (qs : List Str) (a b : Service) : Bool :=
+  match Curly.wsScore qs (tokenize a.rootPath), Curly.wsScore qs (tokenize b.rootPath) with
+  | some sa, some sb => sa != sb
+  | _, _ => true
+
+def scoresSeparateB (cfg : Config) (req : Req) : Bool :=
+  pairwiseB (scoresDiffer (tokenize req.path)) cfg.services
+
+theorem distinctMethodPath_of_B {cfg : Config} (h : distinctMethodPathB cfg = true) : distinctMethodPath cfg := by
+  unfold distinctMethodPathB at h
+  simp only [List.all_eq_true] at h
+  intro svc hsvc
+  have := (pairwiseB_iff _ _).mp (h svc hsvc)
+  refine this.imp ?_
+  intro a b hab hm
+  simp only [Bool.or_eq_true, Bool.not_eq_true', beq_eq_false_iff_ne, ne_eq, bne_iff_ne] at hab
+  rcases hab with hab | hab
+  · exact absurd hm hab
+  · exact hab
+
+theorem scoresSeparate_of_B {cfg : Config} {req : Req} (h : scoresSeparateB cfg req = true) : scoresSeparate cfg req := by
+  unfold scoresSeparateB at h
+  have := (pairwiseB_iff _ _).mp h
+  refine this.imp ?_
+  intro a b hab sa sb ha hb
+  unfold scoresDiffer at hab
+  simp only [ha, hb, bne_iff_ne, ne_eq] at hab
+  exact hab
+
+/-- the property's own exclusion at service level: two roots of the same literal/variable shape
+    (same length, literals equal where both are literals, variables where both are variables) -/
+def sameShapeRoots : List Str → List Str → Bool
+  | [], [] => true
+  | a :: as, b :: bs =>
+    (if rootTokIsVar a then rootTokIsVar b else !rootTokIsVar b && a == b) && sameShapeRoots as bs
+  | _, _ => false
+
+/-- some two services have root paths of the same shape (C03 excludes such tables) -/
+def hasSameShapeRoots (cfg : Config) : Bool :=
+  !pairwiseB (fun a b => !sameShapeRoots (tokenize a.rootPath) (tokenize b.rootPath)) cfg.services
+
+end Spec
+end Restful
